@@ -27,11 +27,11 @@ def run(rep, tier):
     rep.rule = ("%d compressed objects (GLWE, GGLWE with rank_in 1..3, GGSW; ranks, dnum/dsize grid, several mask/error seeds) on 4 back-ends: compressed encryption -> decompression; Rand.tla "
                 "requires (a) the stored seeds to be the successive draws of the master stream in the library's cell order (drawn through the public Source API), (b) every decompressed GLWE / "
                 "GGLWE cell to be limb-for-limb equal to the PUBLIC standard glwe_encrypt_sk of the cell's plaintext under Source(stored seed) and the shared error stream, (c) serialise -> "
-                "deserialise -> decompress to give the same object, (d) one outcome on all back-ends; the compressed KEY wrappers (switching, automorphism, tensor, GGLWE-to-GGSW keys; ranks 1..3) as compressed GGLWEs of known plaintext columns under a known key: stored seeds = draws in cell order (one branch seed per key for GGLWE-to-GGSW), decompressed cells limb-for-limb equal to the plain compressed-GGLWE encryption of those columns (masks only for the automorphism key), and every cell a valid gadget encryption of its column under its key (phases recomputed by TLC); plus the dependency experiments on the compressed layouts (mask = f(seed) only); distinct = experiments"
+                "deserialise -> decompress to give the same object, (d) one outcome on all back-ends; the compressed KEY wrappers (switching, automorphism, tensor, GGLWE-to-GGSW keys; ranks 1..3) as compressed GGLWEs of known plaintext columns under a known key: stored seeds = draws in cell order (one branch seed per key for GGLWE-to-GGSW), decompressed cells limb-for-limb equal to the plain compressed-GGLWE encryption of those columns (masks only for the automorphism key), and every cell a valid gadget encryption of its column under its key (phases recomputed by TLC); the compressed blind-rotation key (one compressed GGSW of the constant s_lwe[i] per LWE coefficient, branch seed i = i-th draw of the master stream, cell seeds = the branch's draws in GGSW order, cells valid); plus the dependency experiments on the compressed layouts (mask = f(seed) only); distinct = experiments"
                 % n19)
     rep.sample({x: rows[0][x] for x in rows[0]})
     log("[C19] %d experiments, %d rejected" % (len(rows), len(bad)))
-    rep.assumptions += ["GGSW cells other than the body column cannot be re-created through a public standard encryption: their masks are covered by the dependency experiment and their phases by C04/C06",
+    rep.assumptions += ["GGSW cells other than the body column cannot be re-created through a public standard encryption: their masks are covered by the dependency experiment; every decompressed GGSW cell is judged on its phase (scalar, or scalar * s_j, at the row's scale, ternary and multi-digit scalars)",
                         "the automorphism key's cells are encrypted under pi_p^-1(s), which the public API cannot build: their bodies are judged on phases, only their masks bit for bit",
                         "GGLWEToGGSWKeyDecompress has no implementation for Module in the crate: the harness decompresses that key GGLWE by GGLWE (decompress_gglwe)",
-                        "LWE-related compressed keys and the bin-fhe compressed keys are not covered"]
+                        "the compressed blind-rotation key has no decompression routine: its serialisation is cut into compressed GGSWs through the public readers; LWE-related compressed keys have layouts but no encryption routine in the crate and are not covered"]
